@@ -232,6 +232,13 @@ func runC11(c *fw.Ctx) {
 	for k := range snips {
 		snames = append(snames, "snippet:"+k)
 	}
+	// the layout zoo takes part as well (rare constructs: implicit empty statements after a label
+	// that ends a block, empty bodies, multi-line instantiations, ...)
+	zoo := layoutZoo()
+	for k := range zoo {
+		snames = append(snames, "snippet:zoo/"+k)
+		snips["zoo/"+k] = zoo[k]
+	}
 	sortStrings(snames)
 	files = append(snames, files...)
 	for i, p := range files {
